@@ -9,6 +9,7 @@ Supporting monitor (online): an icontract postcondition on the real MinifyNameFa
 Bounded enumeration: N fresh names through one factory: all results distinct, [a-z]+, never reserved.
 """
 import os
+from .. import ambient
 import re
 import shutil
 import tempfile
@@ -131,7 +132,7 @@ def run_one(ctx, src, scopes, config, keep, workdir, cli=False):
         p1 = os.path.join(workdir, 'n.p8')
         with open(p1, 'wb') as fh:
             fh.write(rc.write_p8(regions, src, version=8))
-        argv = ['-q', 'luamin'] + (['--keep-all-names'] if config.startswith('keep_all') else []) + (
+        argv = [ambient.vflag(), 'luamin'] + (['--keep-all-names'] if config.startswith('keep_all') else []) + (
             ['--keep-names-from-file', keep_file] if 'keep_file' in config else [])
         # several carts on one command line: every output must satisfy the property on its own
         prev_src = ctx.extra.get('_prev_cli_src')
@@ -165,7 +166,7 @@ def run_one(ctx, src, scopes, config, keep, workdir, cli=False):
             if os.path.exists(out2):
                 os.remove(out2)
             try:
-                tool.main(['-q', 'build', out2, '--lua', p1, '--lua-minify'])
+                tool.main([ambient.vflag(), 'build', out2, '--lua', p1, '--lua-minify'])
                 got2 = rc.read_p8(open(out2, 'rb').read())['code']
             except BaseException as e:
                 ctx.violation('build --lua-minify failed: %r' % (e,), case)
